@@ -129,12 +129,26 @@ def analyse(obs: Obs, prog):
         for mn_, mf_ in Hc.methods.items():
             if hn_ == "StaticHandler" and mn_ == "record":
                 continue
+            writes_ = []
             for n_ in ast.walk(mf_):
                 tg = n_.targets if isinstance(n_, ast.Assign) else ([n_.target] if isinstance(n_, (ast.AugAssign, ast.AnnAssign)) else [])
                 for t_ in tg:
                     if isinstance(t_, ast.Subscript) and ast.unparse(t_.value) == "self.traces":
+                        writes_.append(n_)
+            if writes_:
+                # `record` spelled out in a handler is as good as calling it: the same reuse test (decided on the evaluated method, as for record) must be
+                # evaluated before the store, on the address that is stored
+                try:
+                    okd_, _txt = _reuse_test(Evaluator(prog).eval_fn(mf_, Hc.module, Hc))
+                except AnalysisError:
+                    okd_ = False
+                pos_v = min(((x.lineno, x.col_offset) for x in ast.walk(mf_) if (isinstance(x, ast.Call) and isinstance(x.func, ast.Attribute) and x.func.attr in visit_helpers
+                             and ast.unparse(x.func.value) == "self") or (isinstance(x, ast.Raise) and "AddressReuse" in ast.unparse(x))), default=None)
+                for n_ in writes_:
+                    key_ok = ast.unparse(n_.targets[0].slice) == "addr" if isinstance(n_, ast.Assign) else False
+                    if not (okd_ and key_ok and pos_v is not None and pos_v < (n_.lineno, n_.col_offset)):
                         direct.append(f"{hn_}.{mn_}:{n_.lineno}")
-    obs.add({"C22", "C01"}, "RECORD-ONCE", "handlers/direct-trace-writes", not direct, construct="writes of self.traces outside StaticHandler.record", derived=str(direct) if direct else "none",
+    obs.add({"C22", "C01"}, "RECORD-ONCE", "handlers/direct-trace-writes", not direct, construct="writes of self.traces outside StaticHandler.record that are not preceded by the reuse test", derived=str(direct) if direct else "none",
             expected="sub-traces are stored by self.record(addr, tr) only, so a second visit of an address always reaches the AddressReuse test", where=W(SH, "record"))
     n_handlers = 0
     ys_index = {}
@@ -221,9 +235,11 @@ def analyse(obs: Obs, prog):
             obs.add({"C04"}, "KEY-LINEAR", inst + "/key", cal[2][0] == keyt, derived=cal[2][0], expected="fold_in(self.key, self.key_counter)", where=w)
         # ---- record exactly once with own addr and the callee's trace
         if kind == "assess":
-            hb = H.methods["handle_trace"].body
-            i_vis = next((i for i, s_ in enumerate(hb) if any(isinstance(x, ast.Call) and isinstance(x.func, ast.Attribute) and x.func.attr in (visit_helpers + ["record"]) and ast.unparse(x.func.value) == "self" for x in ast.walk(s_))), None)
-            i_cal = next((i for i, s_ in enumerate(hb) if any(isinstance(x, ast.Attribute) and x.attr == "assess" for x in ast.walk(s_))), None)
+            hn_ = list(ast.walk(H.methods["handle_trace"]))
+            p_ = lambda n_: (n_.lineno, n_.col_offset)
+            i_vis = min((p_(x) for x in hn_ if (isinstance(x, ast.Call) and isinstance(x.func, ast.Attribute) and x.func.attr in (visit_helpers + ["record"]) and ast.unparse(x.func.value) == "self")
+                         or (isinstance(x, ast.Raise) and "AddressReuse" in ast.unparse(x))), default=None)
+            i_cal = min((p_(x) for x in hn_ if isinstance(x, ast.Call) and isinstance(x.func, ast.Attribute) and x.func.attr == "assess"), default=None)
             okv_, txtv_ = _reuse_test(r)
             obs.add({"C22", "C02"}, "ADDR-UNIQUE", inst + "/visit", bool(okv_) and i_vis is not None and i_cal is not None and i_vis < i_cal, construct="address-reuse test under assess",
                     derived=f"{txtv_}; visit@{i_vis} callee assess@{i_cal}", expected="assess marks each visited address (self.visit(addr)) before assessing the callee: a duplicated address raises AddressReuse instead of counting its density twice", where=w)
@@ -244,10 +260,13 @@ def analyse(obs: Obs, prog):
                     derived="raises MissingAddress(addr) whenever choice_map(addr) is statically empty, whatever the callee is: a callee without random choices has an empty sub-map by construction",
                     expected="no MissingAddress for a callee that makes no random choice", where=w)
             obs.add({"C22"}, "MISSING-ADDR", inst + "/raise", okm, derived=f"{[(show(x), [show(t) for t, p in c]) for c, x in r.raises]}", expected="raise MissingAddress(addr) iff choice_map(addr).static_is_empty()", where=w)
-            body = H.methods["handle_trace"].body
-            i_raise = next((i for i, s in enumerate(body) if isinstance(s, ast.If) and any(isinstance(x, ast.Raise) for x in ast.walk(s))), None)
-            i_call = next((i for i, s in enumerate(body) if any(isinstance(x, ast.Attribute) and x.attr == "assess" for x in ast.walk(s))), None)
-            obs.add({"C22"}, "MISSING-ADDR", inst + "/order", i_raise is not None and i_call is not None and i_raise < i_call, derived=f"raise@{i_raise} call@{i_call}", expected="test before calling the callee", where=w)
+            # evaluation order is source order in this loop-free body: the emptiness test is evaluated before the callee's assess is called (otherwise the
+            # callee fails first, with its own inner address), whatever the statement structure around them is
+            pos_ = lambda n_: (n_.lineno, n_.col_offset)
+            hnodes = list(ast.walk(H.methods["handle_trace"]))
+            i_raise = min((pos_(x) for x in hnodes if isinstance(x, ast.Call) and isinstance(x.func, ast.Attribute) and x.func.attr == "static_is_empty"), default=None)
+            i_call = min((pos_(x) for x in hnodes if isinstance(x, ast.Call) and isinstance(x.func, ast.Attribute) and x.func.attr == "assess"), default=None)
+            obs.add({"C22"}, "MISSING-ADDR", inst + "/order", i_raise is not None and i_call is not None and i_raise < i_call, derived=f"test@{i_raise} call@{i_call}", expected="test before calling the callee", where=w)
         else:
             trs = env.get("self.traces")
             tr_term = cal if kind == "simulate" else mk_proj(cal, 0)
@@ -281,11 +300,11 @@ def analyse(obs: Obs, prog):
     ev = Evaluator(prog)
     r = ev.eval_fn(ST.methods["get_score"], ST.module, ST)
     subs = sattr("subtraces")
-    okg = is_call(r.ret, "sum") and len(r.ret[2]) == 1 and any(is_t(x, "fam") and x[2] == score_of(("elem", call0(subs, "values"))) for x in subterms(r.ret))
+    okg = is_call(r.ret, "sum") and len(r.ret[2]) == 1 and any(is_t(x, "fam") and x[1] == subs and x[2] == score_of(("index", subs, ("elem", subs))) for x in subterms(r.ret))
     obs.add({"C02", "C01", "C34"}, "SCORE-AGG", "StaticTrace.get_score", okg, derived=r.ret, expected="sum over ALL subtraces of subtrace.get_score()", where=W(ST, "get_score"))
     r = ev.eval_fn(ST.methods["get_choices"], ST.module, ST)
-    it = call0(subs, "items")
-    okc = is_call(r.ret, "d") and len(r.ret[2]) == 1 and is_t(r.ret[2][0], "dictfam") and r.ret[2][0][1] == it and r.ret[2][0][2] == mk_proj(("elem", it), 0) and r.ret[2][0][3] == choices_of(mk_proj(("elem", it), 1))
+    pairs_ = r.ret[2][0] if is_call(r.ret, "from_mapping") and len(r.ret[2]) == 1 else None
+    okc = is_t(pairs_, "fam") and pairs_[1] == subs and pairs_[2] == ("tuple", (("elem", subs), choices_of(("index", subs, ("elem", subs)))))
     obs.add({"C22", "C01", "C34"}, "TRACE-CHOICES", "StaticTrace.get_choices", okc, derived=r.ret, expected="ChoiceMap.d({address: subtrace.get_choices() for every recorded subtrace})", where=W(ST, "get_choices"))
     for acc, fld in (("get_args", "args"), ("get_retval", "retval"), ("get_gen_fn", "gen_fn")):
         r = ev.eval_fn(ST.methods[acc], ST.module, ST)
@@ -350,7 +369,7 @@ def analyse(obs: Obs, prog):
     # project
     r = ev.eval_fn(SG.methods["project"], SG.module, SG)
     w = W(SG, "project")
-    keys = call0(("attr", P("trace"), "subtraces"), "keys")
+    keys = ("attr", P("trace"), "subtraces")  # d.keys() / d.items() / d.values() iterate the dictionary: canonical iterable is d itself
     el = ("elem", keys)
     term = ("call", ("attr", ("call", ("attr", P("trace"), "get_subtrace"), (el,), ()), "project"), (P("key"), ("call", P("selection"), (el,), ())), ())
     okp = is_t(r.ret, "bin") and r.ret[1] == "+" and is_zero(r.ret[2]) and r.ret[3] == ("sumover", keys, term)
